@@ -223,6 +223,12 @@ func targetedRaces(res *vlib.Result, d time.Duration, deadlockToo bool) {
 		res.Violate(fmt.Sprintf("stress: Close(true) racing Handle.Release: a value was finalised twice (%d of %d trials)", h2, t2),
 			map[string]interface{}{"mode": "forcecloserace"})
 	}
+	t4, h4 := doubleReleaseRaceExperiment(d)
+	res.Count("doublerelease_trials", t4)
+	if h4 > 0 {
+		res.Violate(fmt.Sprintf("stress: two goroutines releasing the same handle while a second handle is outstanding: the value was finalised early, lost, or not finalised exactly once (%d of %d trials)", h4, t4),
+			map[string]interface{}{"mode": "doublerelease"})
+	}
 	// third race: Close against an operation whose cacher step releases a handle (was known finding
 	// cache-close-rlock-reentry: 3 deadlocks in 46-131 trials; repaired by "fix: cache: Close must not deadlock
 	// with an operation whose cacher step releases a handle"; it must not recur)
